@@ -4,7 +4,7 @@ Witnesses that the *full* statements of C18 are false on the current tables (kno
 Informational: if the data is repaired these theorems stop being provable; that is not an alarm.
 -/
 namespace ChythonModel.Findings.C18
-open ChythonModel.Gen ChythonModel.Props.C18
+open ChythonModel.Gen ChythonModel.Props.C18 ChythonModel.Model.C18
 
 theorem mdl_in_distribution_full_false : ¬ MdlInDistribution := by
   unfold MdlInDistribution; decide +kernel
